@@ -10,6 +10,7 @@ import (
 	"grog/internal/dag"
 	"grog/internal/hashing"
 	"grog/internal/label"
+	"grog/internal/maps"
 	"grog/internal/model"
 	"grog/internal/output"
 	"grog/internal/output/handlers"
@@ -44,6 +45,8 @@ type Executor struct {
 	loadOutputsMode  config.LoadOutputsMode
 	targetHasher     *hashing.TargetHasher
 	streamLogsToggle *console.StreamLogsToggle
+	// dependencyLocks serializes loading (or re-running) a dependency on behalf of several dependants
+	dependencyLocks *maps.MutexMap
 }
 
 func NewExecutor(
@@ -66,6 +69,7 @@ func NewExecutor(
 		loadOutputsMode:  loadOutputsMode,
 		targetHasher:     hashing.NewTargetHasher(graph),
 		streamLogsToggle: console.NewStreamLogsToggle(streamLogs),
+		dependencyLocks:  maps.NewMutexMap(),
 	}
 }
 
@@ -459,66 +463,84 @@ func (e *Executor) LoadDependencyOutputs(
 		target.Label,
 	)
 	for _, dep := range e.graph.GetTargetDependencies(target) {
-		localDep := dep
-		if localDep.OutputsLoaded {
-			// Executed or loaded earlier in this build: its outputs are in the workspace
-			continue
+		if err := e.loadDependencyOutput(ctx, target, dep, update); err != nil {
+			return err
 		}
-		// Function to re-run a dependency in case we
-		rerunDependency := func() error {
-			binTools, binToolErr := e.getBinToolPaths(localDep)
-			if binToolErr != nil {
-				return binToolErr
-			}
+	}
 
-			outputIdentifiers := e.getDependencyOutputIdentifiers(localDep)
+	return nil
+}
 
-			update(worker.Status(fmt.Sprintf("%s: re-running dependency %s (load_outputs_mode=minimal).", target.Label, localDep.Label)))
-			_, executionErr := e.executeTarget(ctx, localDep, binTools, outputIdentifiers, update, false)
-			if executionErr != nil {
-				return executionErr
-			}
-			return nil
+// loadDependencyOutput makes sure that the outputs of one direct dependency of target are in
+// the workspace, re-running the dependency if they cannot be loaded from the cache.
+func (e *Executor) loadDependencyOutput(
+	ctx context.Context,
+	target *model.Target,
+	localDep *model.Target,
+	update worker.StatusFunc,
+) error {
+	logger := console.GetLogger(ctx)
+
+	// Several dependants may need the same dependency at the same time: only one of them
+	// loads or re-runs it, the others find its outputs in the workspace afterwards.
+	e.dependencyLocks.Lock(localDep.Label.String())
+	defer e.dependencyLocks.Unlock(localDep.Label.String())
+
+	if localDep.OutputsLoaded {
+		// Executed or loaded earlier in this build: its outputs are in the workspace
+		return nil
+	}
+	// Function to re-run a dependency in case we
+	rerunDependency := func() error {
+		binTools, binToolErr := e.getBinToolPaths(localDep)
+		if binToolErr != nil {
+			return binToolErr
 		}
 
-		targetResult, err := e.targetCache.Load(ctx, localDep.ChangeHash)
-		if err != nil {
-			// We cannot even get the target cache: re-run the dependency (which in turn
-			// needs the outputs of its own dependencies) and carry on with the remaining ones
-			if recursiveLoadErr := e.LoadDependencyOutputs(ctx, localDep, update); recursiveLoadErr != nil {
-				return recursiveLoadErr
-			}
-			if rerunError := rerunDependency(); rerunError != nil {
-				return rerunError
-			}
-			continue
-		}
+		outputIdentifiers := e.getDependencyOutputIdentifiers(localDep)
 
-		progress := worker.NewProgressTracker(
-			fmt.Sprintf("%s: loading %s", target.Label, console.FCountOutputs(len(target.AllOutputs()))),
-			0,
-			update,
+		update(worker.Status(fmt.Sprintf("%s: re-running dependency %s (load_outputs_mode=minimal).", target.Label, localDep.Label)))
+		_, executionErr := e.executeTarget(ctx, localDep, binTools, outputIdentifiers, update, false)
+		if executionErr != nil {
+			return executionErr
+		}
+		return nil
+	}
+
+	targetResult, err := e.targetCache.Load(ctx, localDep.ChangeHash)
+	if err != nil {
+		// We cannot even get the target cache: re-run the dependency (which in turn
+		// needs the outputs of its own dependencies)
+		if recursiveLoadErr := e.LoadDependencyOutputs(ctx, localDep, update); recursiveLoadErr != nil {
+			return recursiveLoadErr
+		}
+		return rerunDependency()
+	}
+
+	progress := worker.NewProgressTracker(
+		fmt.Sprintf("%s: loading %s", target.Label, console.FCountOutputs(len(target.AllOutputs()))),
+		0,
+		update,
+	)
+	loadErr := e.registry.LoadOutputs(ctx, localDep, targetResult, progress)
+
+	// A no-cache dependency has no cached outputs to load. It only needs to be re-run
+	// if it has not already been executed (and thereby loaded) in this build.
+	if loadErr != nil || (localDep.SkipsCache() && !localDep.OutputsLoaded) {
+		logger.Debugf(
+			"%s: failed to load output for dependency %s (re-rerunning): err=%v no-cache=%t",
+			target.Label,
+			localDep.Label,
+			err,
+			target.SkipsCache(),
 		)
-		loadErr := e.registry.LoadOutputs(ctx, localDep, targetResult, progress)
+		// In this case we need to also recursively re-load the dependencies of the dependency
+		if recursiveLoadErr := e.LoadDependencyOutputs(ctx, localDep, update); recursiveLoadErr != nil {
+			return recursiveLoadErr
+		}
 
-		// A no-cache dependency has no cached outputs to load. It only needs to be re-run
-		// if it has not already been executed (and thereby loaded) in this build.
-		if loadErr != nil || (localDep.SkipsCache() && !localDep.OutputsLoaded) {
-			logger.Debugf(
-				"%s: failed to load output for dependency %s (re-rerunning): err=%v no-cache=%t",
-				target.Label,
-				localDep.Label,
-				err,
-				target.SkipsCache(),
-			)
-			// In this case we need to also recursively re-load the dependencies of the dependency
-			if recursiveLoadErr := e.LoadDependencyOutputs(ctx, localDep, update); recursiveLoadErr != nil {
-				return recursiveLoadErr
-			}
-
-			if rerunError := rerunDependency(); rerunError != nil {
-				return rerunError
-			}
+		if rerunError := rerunDependency(); rerunError != nil {
+			return rerunError
 		}
 	}
 
